@@ -37,7 +37,7 @@
 enum { JA = 1, JD, TA, TD, TR, PA, PM, PD, SA, SM, SD, STOP, CLOSE, RAISE };
 struct op { int kind; long long a[5]; };
 struct beh { long long key, n, ret; int nops; struct op *ops; };
-struct envt { long long adv; int stop; int nsig; int sigs[16]; int nready; struct { int fd; unsigned bits; } ready[64]; };
+struct envt { long long adv; int stop; int nsig; int sigs[16]; int nready; struct { int fd; unsigned bits; } ready[256]; };
 
 #define MAXKEY 65536
 #define MAXREG 4096
@@ -320,7 +320,7 @@ int main(void)
 					if (strcmp(tok[i], "s") == 0) mode = 1;
 					else if (strcmp(tok[i], "r") == 0) mode = 2;
 					else if (mode == 1 && e->nsig < 16) e->sigs[e->nsig++] = atoi(tok[i]);
-					else if (mode == 2 && e->nready < 64) {
+					else if (mode == 2 && e->nready < 256) {
 						char *c = strchr(tok[i], ':');
 						if (!c) { printf("note: bad ready\n"); exit(3); }
 						e->ready[e->nready].fd = atoi(tok[i]);
